@@ -5,14 +5,15 @@
 //verif:replace (net.IP).String vC10ipString
 //verif:replace (*net.IPNet).String vC10netString
 //verif:replace (github.com/libp2p/go-libp2p/core/peer.ID).String vC10peerString
+//verif:replace net.ParseCIDR vC10parseCIDR
 //verif:replace github.com/ipfs/go-datastore.NewKey vC10newKey
 //verif:shard VerifC10aDecision 8
-//verif:shard VerifC10bPersistence 3
+//verif:shard VerifC10bPersistence 16
 //verif:obligation C10.a gater decisions over symbolic IP bytes: for every remote IPv4 address, every blocked-address rule (stored from the 4-byte or the 16-byte v4-mapped form) and every blocked subnet (network given in 4-byte or 16-byte form, prefix lengths /0 /8 /12 /16 /24 /31 /32), InterceptAddrDial and InterceptAccept give the same answer for the 4-byte form of the remote and for its IPv4-mapped IPv6 form, refuse an exactly blocked address, refuse every address inside a blocked subnet, and admit when no rule matches; native IPv6 remotes against IPv6 subnets likewise; InterceptPeerDial / InterceptSecured refuse exactly the blocked peers (inbound)
-//verif:obligation C10.b persistence: every Block*/Unblock* call writes to the datastore before touching memory; if the datastore fails the error is returned and memory is unchanged; after every acknowledged call of every history of 3 calls over peers, addresses and subnets (including two subnets with the same network address and different prefix lengths) the persisted rule set decodes to exactly the in-memory rule set, so a restart at any point enforces every acknowledged block and no acknowledged unblock
-//verif:bound one blocked address + one blocked subnet per decision; histories of 3 Block/Unblock calls over 2 peers, 2 addresses, 3 subnets; datastore failures symbolic per call
-//verif:stub manet.ToIP substituted at its call sites by a harness function returning the symbolic IP; net.IP.String / net.IPNet.String / peer.ID.String / datastore.NewKey replaced in the symbolic run by injective functions of the (To4-normalised) bytes - their stdlib / library contract; datastore = harness map with symbolic failures
-//verif:outside the gating call sites of each transport (accept / upgrade / dial paths are covered under C04.a/b), QUIC/WebTransport/WebRTC listeners, a real datastore's crash semantics, textual parsing of addresses, loadRules' query plumbing
+//verif:obligation C10.b persistence: every Block*/Unblock* call writes to the datastore before touching memory; if the datastore fails the error is returned and memory is unchanged; after every acknowledged call of every history of 3 calls over peers, addresses and subnets (including two subnets with the same network address and different prefix lengths) the persisted rule set decodes to exactly the in-memory rule set, so a restart at any point enforces every acknowledged block and no acknowledged unblock; after the history a fresh gater loads the rules through the REAL loadRules from the same datastore: exactly the same rules are in force under the same names, and every subnet rule (also one given with host bits set, e.g. 10.1.2.3/16) can then be lifted: it is no longer in force, listed or persisted
+//verif:bound one blocked address + one blocked subnet per decision; histories of 3 Block/Unblock calls over 2 peers, 2 addresses, 4 subnets, then one restart; datastore failures symbolic per call
+//verif:stub manet.ToIP substituted at its call sites by a harness function returning the symbolic IP; net.IP.String / net.IPNet.String / peer.ID.String / datastore.NewKey replaced in the symbolic run by injective functions (and net.ParseCIDR by the inverse of that IPNet text form, host bits cleared as the real one does) of the (To4-normalised) bytes - their stdlib / library contract; datastore = harness map with symbolic failures
+//verif:outside the gating call sites of each transport (accept / upgrade / dial paths are covered under C04.a/b), QUIC/WebTransport/WebRTC listeners, a real datastore's crash semantics, a real datastore's query engine (the stub filters by prefix and returns go-datastore's ResultsWithEntries)
 package conngater
 
 import (
@@ -21,6 +22,7 @@ import (
 	"net"
 
 	"github.com/ipfs/go-datastore"
+	"github.com/ipfs/go-datastore/query"
 	"github.com/libp2p/go-libp2p/core/network"
 	"github.com/libp2p/go-libp2p/core/peer"
 	ma "github.com/multiformats/go-multiaddr"
@@ -54,6 +56,20 @@ func vC10netString(n *net.IPNet) string {
 }
 
 func vC10peerString(p peer.ID) string { return "b58:" + string(p) }
+
+// inverse of vC10netString with net.ParseCIDR's semantics (the returned network has its host bits cleared)
+func vC10parseCIDR(s string) (net.IP, *net.IPNet, error) {
+	n := 4
+	if len(s) > 2 && s[0] == '6' {
+		n = 16
+	}
+	if len(s) < 2+n+1+n || s[1] != ':' || s[2+n] != '/' {
+		return nil, nil, errors.New("invalid CIDR address")
+	}
+	ip := net.IP(s[2 : 2+n])
+	mask := net.IPMask(s[3+n:])
+	return ip, &net.IPNet{IP: ip.Mask(mask), Mask: mask}, nil
+}
 
 func vC10newKey(s string) datastore.Key { return datastore.RawKey(s) }
 
@@ -206,12 +222,23 @@ func (s *vC10store) Delete(ctx context.Context, k datastore.Key) error {
 	return nil
 }
 
+func (s *vC10store) Query(ctx context.Context, q query.Query) (query.Results, error) {
+	var es []query.Entry
+	for k, v := range s.m {
+		if len(k) >= len(q.Prefix) && k[:len(q.Prefix)] == q.Prefix {
+			es = append(es, query.Entry{Key: k, Value: []byte(v)})
+		}
+	}
+	return query.ResultsWithEntries(q, es), nil
+}
+
 var vC10peers = []peer.ID{"peerA", "peerB"}
 var vC10addrs = []net.IP{{1, 2, 3, 4}, {5, 6, 7, 8}}
 var vC10nets = []*net.IPNet{
 	{IP: net.IP{10, 0, 0, 0}, Mask: net.CIDRMask(8, 32)},
 	{IP: net.IP{10, 0, 0, 0}, Mask: net.CIDRMask(16, 32)}, // same network address, other prefix length
 	{IP: net.IP{192, 168, 0, 0}, Mask: net.CIDRMask(16, 32)},
+	{IP: net.IP{10, 1, 2, 3}, Mask: net.CIDRMask(16, 32)}, // not canonical: host bits set ("10.1.2.3/16")
 }
 
 // decode the persisted rules the way loadRules does (value -> in-memory key) and compare with memory
@@ -247,24 +274,25 @@ func VerifC10bPersistence() {
 		before := st.memSize()
 		st.opSeen = false
 		var err error
-		unblock := vBool()
-		switch vCase(3) {
-		case 0:
-			p := vC10peers[vCase(2)]
+		op := vCase(16) // item (2 peers, 2 addresses, 4 subnets) x block / unblock
+		item, unblock := op%8, op/8 == 1
+		switch {
+		case item < 2:
+			p := vC10peers[item]
 			if unblock {
 				err = cg.UnblockPeer(p)
 			} else {
 				err = cg.BlockPeer(p)
 			}
-		case 1:
-			a := vC10addrs[vCase(2)]
+		case item < 4:
+			a := vC10addrs[item-2]
 			if unblock {
 				err = cg.UnblockAddr(a)
 			} else {
 				err = cg.BlockAddr(a)
 			}
-		case 2:
-			n := vC10nets[vCase(3)]
+		default:
+			n := vC10nets[item-4]
 			if unblock {
 				err = cg.UnblockSubnet(n)
 			} else {
@@ -281,4 +309,37 @@ func VerifC10bPersistence() {
 	if len(cg.blockedSubnets) == 2 {
 		vCover("two-subnets")
 	}
+	// restart: a fresh gater on the same datastore, rules decoded by the real loadRules
+	cg2 := &BasicConnectionGater{blockedPeers: map[peer.ID]struct{}{}, blockedAddrs: map[string]struct{}{}, blockedSubnets: map[string]*net.IPNet{}}
+	st2 := &vC10store{m: st.m, fail: []bool{false}, cg: cg2}
+	cg2.ds = st2
+	vAssert(cg2.loadRules(context.Background()) == nil, "the persisted rules load")
+	same := len(cg2.blockedPeers) == len(cg.blockedPeers) && len(cg2.blockedAddrs) == len(cg.blockedAddrs) && len(cg2.blockedSubnets) == len(cg.blockedSubnets)
+	for k := range cg.blockedPeers {
+		_, in := cg2.blockedPeers[k]
+		same = same && in
+	}
+	for k := range cg.blockedAddrs {
+		_, in := cg2.blockedAddrs[k]
+		same = same && in
+	}
+	for k, n := range cg.blockedSubnets {
+		n2, in := cg2.blockedSubnets[k]
+		same = same && in && n2 != nil && n2.String() != "" && n2.Contains(n.IP) && n2.Mask.String() == n.Mask.String()
+	}
+	vAssert(same, "after a restart exactly the rules that were in force are in force again, under the same names")
+	// every rule that survived the restart can be lifted again, and is then neither enforced nor listed nor persisted
+	for _, n := range vC10nets {
+		if _, in := cg2.blockedSubnets[n.String()]; in {
+			vCover("unblock-after-restart")
+			vAssert(cg2.UnblockSubnet(n) == nil, "unblock after restart")
+			_, still := cg2.blockedSubnets[n.String()]
+			vAssert(!still, "a subnet unblocked after a restart is no longer in force")
+			for _, left := range cg2.ListBlockedSubnets() {
+				vAssert(left.String() != n.String(), "a subnet unblocked after a restart is no longer listed")
+			}
+		}
+	}
+	vAssert(len(cg2.blockedSubnets) == 0, "after lifting every subnet rule none is in force")
+	vAssert(vC10persistedEqualsMemory(st2), "and the datastore agrees")
 }
